@@ -41,7 +41,7 @@ import vlib
 # schemagen features whose output lies (mostly) in the fragment; what falls outside
 # (by-value recursion, non-ASCII names are rewritten) is filtered by `in_frag` itself
 FEATURES = {"bool", "int", "int_format", "number", "string", "null", "str_enum", "object", "closed_object",
-            "map", "array", "nullable_type", "ref", "recursion", "rename", "str_len", "str_pattern", "int_bounds", "set", "fixed_array"}
+            "map", "array", "nullable_type", "ref", "recursion", "rename", "str_len", "str_pattern", "int_bounds", "set", "fixed_array", "tuple"}
 
 CORPUS = os.path.join(vlib.ROOT, "corpus", "convert")
 
@@ -85,6 +85,12 @@ LEAVES = [
     {"type": "array", "items": {"type": "string"}, "uniqueItems": True}, {"type": "array", "uniqueItems": True, "maxItems": 4},
     {"type": "array", "items": {"type": "integer"}, "uniqueItems": True, "minItems": 2, "maxItems": 2},   # outside
     {"type": "array", "items": {"type": "boolean"}, "minItems": 0, "maxItems": 0},   # outside
+    {"type": "array", "items": [{"type": "string"}, {"type": "integer"}], "minItems": 2, "maxItems": 2},
+    {"type": "array", "items": [{"type": "object", "properties": {"k": {"type": "null"}}}], "minItems": 1, "maxItems": 1},
+    {"type": ["array", "null"], "items": [{"type": "string", "enum": ["u", "v"]}, {"type": "string", "maxLength": 1}, {"$ref": "#/definitions/B"}], "minItems": 3, "maxItems": 3},
+    {"type": "array", "items": [{"type": "string"}, {"type": "integer"}], "minItems": 3, "maxItems": 3},   # outside: fewer items
+    {"type": "array", "items": [{"type": "string"}, {"type": "integer"}], "minItems": 1, "maxItems": 1},   # outside: more items
+    {"type": "array", "items": [{"type": "string"}]},                                                      # outside: no lengths
     {"type": "object", "additionalProperties": False},
     {"$ref": "#/definitions/B"},
 ]
@@ -272,9 +278,13 @@ def coq_case(i, doc, dump):
 
 def evaluate(tag, docs, shard=150, timeout=900):
     vlib.build_harness(bins=("vh",))
-    ok, out = vlib.coq_make(["theories/Algo/Convert.vo"])
-    if not ok:
-        raise RuntimeError(out[-3000:])
+    dev = os.environ.get("CONVERT_DEV_COQ")      # a private copy of /verif/coq (already compiled): development only
+    if dev:
+        vlib.COQ = dev
+    else:
+        ok, out = vlib.coq_make(["theories/Algo/Convert.vo"])
+        if not ok:
+            raise RuntimeError(out[-3000:])
     cases = [{"settings": {}, "steps": [{"op": "root", "doc": d}], "code": False} for d in docs]
     gens = vlib.run_vh("gen", cases)
     dumps = [g.get("dump") if g.get("all_ok") else None for g in gens]
